@@ -485,6 +485,12 @@ func c01Subscription(a *An, rule string) {
 		}
 	}
 	sort.Strings(missing)
+	// the default operation set is the documented one: the five portable operations (a plain Add reports all of them)
+	_, opBy := opNames(a)
+	wantDef := opBy["Create"] | opBy["Write"] | opBy["Remove"] | opBy["Rename"] | opBy["Chmod"]
+	saved.ob(rule, "default-operations", "a plain Add asks for the five portable operations Create, Write, Remove, Rename and Chmod", "-", def == wantDef, "default operation set: "+maskName(opN)(def))
+	// and options are applied: the function that builds the option set calls every non-nil option on the value it returns
+	c15OptionsApplied(a, saved, rule)
 	saved.ob(rule, "default-subscription", "for the default operations "+maskName(opN)(def)+" every native flag that the translator maps to one of them is requested from the kernel",
 		"-", len(missing) == 0, sprintf("requested %s; not requested: %s", maskName(inN)(requested), fmtList(missing)))
 }
@@ -823,6 +829,10 @@ func foldConstArrayTests(d DNF) DNF {
 // localConstArrayElem: v loads an element (at a non-constant index) of a local array all of whose elements are stored
 // once, with integer constants; returns those constants.
 func localConstArrayElem(v ssa.Value) ([]uint64, bool) {
+	// a package-level array of constants, filled by the initialiser only
+	if ks, ok := globalConstArrayElem(v); ok {
+		return ks, true
+	}
 	var al *ssa.Alloc
 	switch x := stripConv(v).(type) {
 	case *ssa.UnOp: // *(&arr[i])
@@ -901,6 +911,150 @@ func localConstArrayElem(v ssa.Value) ([]uint64, bool) {
 	return out, true
 }
 
+// c15OptionsApplied: the option builder (variadic options in, option struct out) calls each element of its parameter on
+// the address of the struct it returns, under nothing but a nil test of that element.
+func c15OptionsApplied(a *An, r *Result, rule string) {
+	var fn *ssa.Function
+	for _, f := range a.P.srcFuncs(a.P.Main) {
+		sig := f.Signature
+		if sig.Recv() != nil || !sig.Variadic() || sig.Params().Len() != 1 || sig.Results().Len() != 1 {
+			continue
+		}
+		st, ok := sig.Results().At(0).Type().Underlying().(*types.Struct)
+		if !ok {
+			continue
+		}
+		hasOp := false
+		for i := 0; i < st.NumFields(); i++ {
+			if types.Identical(st.Field(i).Type(), a.Ro.Op) {
+				hasOp = true
+			}
+		}
+		if hasOp {
+			fn = f
+		}
+	}
+	if fn == nil {
+		r.fail("anchor unresolved: the option builder (func(...option) options-struct)")
+		return
+	}
+	w := a.E.Walk(fn, WalkOpts{})
+	applied := false
+	why := "no call of an element of the options parameter on the returned struct"
+	for _, v := range w.Visits {
+		call, ok := v.Instr.(*ssa.Call)
+		if !ok || call.Call.IsInvoke() || call.Call.StaticCallee() != nil || len(call.Call.Args) != 1 {
+			continue
+		}
+		// callee value: an element of the parameter slice (possibly handed to a small helper first)
+		cvv, _ := v.Ctx.resolve(call.Call.Value)
+		ld, ok := stripConv(cvv).(*ssa.UnOp)
+		if !ok {
+			continue
+		}
+		ia, ok := ld.X.(*ssa.IndexAddr)
+		if !ok || ia.X != ssa.Value(fn.Params[0]) {
+			continue
+		}
+		// argument: the address of the cell that is returned
+		av, _ := v.Ctx.resolve(call.Call.Args[0])
+		al, ok := av.(*ssa.Alloc)
+		if !ok || al.Parent() != fn {
+			continue
+		}
+		returned := false
+		for _, b := range fn.Blocks {
+			if ret, ok := b.Instrs[len(b.Instrs)-1].(*ssa.Return); ok {
+				if l2, ok := ret.Results[0].(*ssa.UnOp); ok && l2.X == ssa.Value(al) {
+					returned = true
+				}
+			}
+		}
+		onlyNil, bad := v.Cond.everyConj(func(c Conj) bool {
+			for _, l := range c {
+				isLoop := l.A.Kind == AkCmp && strings.Contains(l.A.Subj, "rangeindex")
+				isNil := l.A.Kind == AkNil && l.Neg
+				if !isLoop && !isNil {
+					return false
+				}
+			}
+			return true
+		})
+		if returned && onlyNil {
+			applied = true
+		} else if !onlyNil {
+			why = "the option is applied only under " + stripIDs(bad.String())
+		}
+	}
+	r.ob(rule, "options-applied", "every non-nil option passed to Add is applied to the option set that is used (withOps and friends take effect)", a.P.pos(fn.Pos()), applied, why)
+}
+
+var theProgram *Program
+
+// globalConstArrayElem: v loads an element of a package-level array whose elements are integer constants stored by the
+// package initialiser only (never written elsewhere).
+func globalConstArrayElem(v ssa.Value) ([]uint64, bool) {
+	if theProgram == nil {
+		return nil, false
+	}
+	var g *ssa.Global
+	switch x := stripConv(v).(type) {
+	case *ssa.UnOp: // *(&g[i])
+		if ia, ok := x.X.(*ssa.IndexAddr); ok && x.Op == token.MUL {
+			g, _ = ia.X.(*ssa.Global)
+		}
+	case *ssa.Index: // (*g)[i]: ranging over an array value copies it first
+		if ld, ok := x.X.(*ssa.UnOp); ok && ld.Op == token.MUL {
+			g, _ = ld.X.(*ssa.Global)
+		}
+	}
+	if g == nil || g.Pkg != theProgram.Main {
+		return nil, false
+	}
+	arr, ok := deref(g.Type()).Underlying().(*types.Array)
+	if !ok {
+		return nil, false
+	}
+	init := theProgram.Main.Func("init")
+	if init == nil {
+		return nil, false
+	}
+	vals := map[int64]uint64{}
+	for f := range theProgram.All {
+		if !theProgram.inModule(f) || isCtl(f) {
+			continue
+		}
+		for _, b := range f.Blocks {
+			for _, in := range b.Instrs {
+				x, ok := in.(*ssa.IndexAddr)
+				if !ok || x.X != ssa.Value(g) {
+					continue
+				}
+				if rr := x.Referrers(); rr != nil {
+					for _, u := range *rr {
+						if st, isSt := u.(*ssa.Store); isSt && st.Addr == ssa.Value(x) {
+							idx, ok1 := constUint(x.Index)
+							k, ok2 := constUint(st.Val)
+							if f != init || !ok1 || !ok2 {
+								return nil, false
+							}
+							vals[int64(idx)] = k
+						}
+					}
+				}
+			}
+		}
+	}
+	if int64(len(vals)) != arr.Len() {
+		return nil, false
+	}
+	var out []uint64
+	for _, k := range vals {
+		out = append(out, k)
+	}
+	return out, true
+}
+
 // actionMapLookup: v is `m[param]` for an immutable constant package-level map m and the function's own parameter.
 func actionMapLookup(a *An, fn *ssa.Function, v ssa.Value) (map[string]*ssa.Const, bool) {
 	lk, ok := stripConv(v).(*ssa.Lookup)
@@ -923,6 +1077,7 @@ func actionMapLookup(a *An, fn *ssa.Function, v ssa.Value) (map[string]*ssa.Cons
 
 // c15Supports: xSupports is constant true on inotify, and false exactly when an unportable operation is requested elsewhere.
 func c15Supports(a *An, inotify bool) {
+	theProgram = a.P
 	xs := a.Ro.API["xSupports"]
 	if xs == nil {
 		a.R.fail("anchor unresolved: xSupports")
